@@ -32,7 +32,29 @@ import (
 
 var R = hx.New("C08")
 
-func TestMain(m *testing.M) { os.Exit(R.Main(m)) }
+func TestMain(m *testing.M) {
+	code := R.Main(m)
+	if collect {
+		var sigs []string
+		for s := range collected {
+			sigs = append(sigs, s)
+		}
+		sort.Strings(sigs)
+		for _, s := range sigs {
+			fmt.Printf("COLLECTED %5d  %s\n        e.g. %s\n", collected[s].n, s, collected[s].msg)
+		}
+	}
+	os.Exit(code)
+}
+
+// collect (development aid, C08_COLLECT=1): count every signature instead of stopping at the first violation.
+var (
+	collect   = os.Getenv("C08_COLLECT") != ""
+	collected = map[string]*struct {
+		n   int
+		msg string
+	}{}
+)
 
 // ---------------------------------------------------------------------------------------------
 // Case
@@ -85,7 +107,7 @@ type Case struct {
 	Follow  []string    `json:"follow"`
 }
 
-var idPool = []string{"alice", "bob", "carol_1"}
+var idPool = []string{"alice", "bobby", "carol_1"}
 
 func universe(ids []string) []kshist.K {
 	var u []kshist.K
@@ -325,6 +347,12 @@ func pairWorks(priv, pub []byte) bool {
 	return err == nil && bytes.Equal(out, plain)
 }
 
+// unusable: the keystore offers a public key, but what gets protected with it cannot be revealed
+// with any private key it offers.
+func unusable(k kshist.K, s KS) bool {
+	return kshist.IsPair(k.Kind) && s.PubOK && !(s.AllOK && anyPrivWorks(s.All, s.Pub))
+}
+
 func anyPrivWorks(privs [][]byte, pub []byte) bool {
 	for _, p := range privs {
 		if pairWorks(p, pub) {
@@ -386,7 +414,8 @@ func guarded(what string, f func() error) wResult {
 type pair struct {
 	c         Case
 	base      *store
-	u         []kshist.K
+	u         []kshist.K // all keys of the case's client ids
+	rel       []kshist.K // the keys read after the fault: those readable before, the key written, the other key of the follow-up (the rest is watched through the listings)
 	target    kshist.K
 	other     kshist.K
 	s0, s1    Snap
@@ -637,13 +666,9 @@ func prepare(c Case) (*pair, hx.Vs) {
 		p.skip = "panic in the prior history (reported by C06): " + msg
 		return p, vs
 	}
-	// S0, read on a copy so that reading leaves no trace in the prior state
-	obs, err := base.clone()
-	if err != nil {
-		return fail("clone", err)
-	}
-	p.s0, err = observeFresh(obs, p.u)
-	obs.remove()
+	// S0: the prior state as a fresh cache-less handle reads it (v2: reading a poison key creates its
+	// empty key ring, so those rings exist in every copy of the prior state)
+	p.s0, err = observeFresh(base, p.u)
 	if err != nil {
 		return fail("observe", err)
 	}
@@ -654,6 +679,11 @@ func prepare(c Case) (*pair, hx.Vs) {
 	if p.s0.ListErr != "" || p.s0.RotErr != "" {
 		p.skip = "the prior state cannot be listed (reported by C06): " + p.s0.ListErr + p.s0.RotErr
 		return p, vs
+	}
+	for _, k := range p.u {
+		if s := p.s0.Keys[k]; s.CurOK || s.PubOK || len(s.All) > 0 || k == p.target || k == p.other {
+			p.rel = append(p.rel, k)
+		}
 	}
 	p.lab = labeller{p.s0, p.target}
 	p.known = map[string]bool{}
@@ -744,7 +774,7 @@ func prepare(c Case) (*pair, hx.Vs) {
 	}
 	run.fx.Close()
 	run.fx = nil
-	p.s1, err = observeFresh(dry, p.u)
+	p.s1, err = observeFresh(dry, p.rel)
 	if err != nil {
 		return fail("observe", err)
 	}
@@ -767,7 +797,15 @@ func describeW(p *pair) string {
 // normalise maps the generated fault onto the N calls of W.
 func (p *pair) normalise(f Fault) Fault {
 	n := len(p.calls)
-	f.K = ((f.K % n) + n) % n
+	if f.K < 0 {
+		f.K = -f.K
+	}
+	if f.Window && p.firstMut >= 0 {
+		f.K = p.firstMut + f.K%(p.lastMut-p.firstMut+1)
+	} else {
+		f.K = f.K % n
+	}
+	f.Window = false
 	if f.Kind == KindTorn && !p.calls[f.K].Data {
 		f.Kind = KindCrashAfter
 	}
@@ -849,7 +887,7 @@ func (p *pair) checkAgainst(st *store, post Snap, run *wrun, who, fault string, 
 	*vs = append(*vs, post.Vs...)
 	stale := st.leftoversNow()
 	// (1) every other key reads as before
-	for _, k := range p.u {
+	for _, k := range p.rel {
 		if k == p.target {
 			continue
 		}
@@ -989,8 +1027,8 @@ func (p *pair) checkTarget(post KS, run *wrun, ctx func() string, vs *hx.Vs, com
 			}
 		}
 		// whatever public key is offered now: what gets protected with it must be revealed by a stored private key
-		if kshist.IsPair(k.Kind) && post.PubOK && post.AllOK && !anyPrivWorks(post.All, post.Pub) {
-			vs.Add("pair-unusable:"+op+"@"+f, "%s: data protected with the public key of %s that the keystore offers now cannot be revealed with any of the %d private keys it offers", ctx(), k, len(post.All))
+		if unusable(k, post) && !unusable(k, s0) {
+			vs.Add("pair-unusable:"+op+"@"+f, "%s: data protected with the public key of %s that the keystore offers now cannot be revealed with any private key it offers (%s)", ctx(), k, p.lab.ks(post))
 			outcome = "broken"
 		}
 		if complete && outcome != "new" {
@@ -1006,6 +1044,10 @@ func (p *pair) checkTarget(post KS, run *wrun, ctx func() string, vs *hx.Vs, com
 			outcome = "old"
 		case op == WImport && !s0.CurOK && !post.CurOK && (post.AllNA || !post.AllOK || len(post.All) == 0):
 			outcome = "old" // nothing readable before, nothing readable now
+		case f == "v1" && kshist.IsPair(k.Kind) && halfOf(post, s0, s1):
+			// keystore v1 keeps the two halves of a pair in two files: one half is in the old, the other in the new state
+			vs.Add("pair-halves-differ:"+op+"@"+f, "%s: the private and the public half of %s are out of step: it reads %s, public key readable: %v; before the fault %s, public key readable: %v; after a complete operation %s, public key readable: %v", ctx(), k, p.lab.ks(post), post.PubOK, p.lab.ks(s0), s0.PubOK, p.lab.ks(s1), s1.PubOK)
+			outcome = "between"
 		default:
 			sig := "torn-state"
 			for _, v := range s0.All {
@@ -1025,14 +1067,22 @@ func (p *pair) checkTarget(post KS, run *wrun, ctx func() string, vs *hx.Vs, com
 			}
 			vs.Add(sig+":"+op+"@"+f, "%s: %s reads %s; before the fault %s; after a complete operation %s", ctx(), k, p.lab.ks(post), p.lab.ks(s0), p.lab.ks(s1))
 		}
-		if kshist.IsPair(k.Kind) && post.PubOK && post.AllOK && !anyPrivWorks(post.All, post.Pub) {
-			vs.Add("pair-unusable:"+op+"@"+f, "%s: data protected with the public key of %s that the keystore offers now cannot be revealed with any of the %d private keys it offers", ctx(), k, len(post.All))
+		if unusable(k, post) && !unusable(k, s0) {
+			vs.Add("pair-unusable:"+op+"@"+f, "%s: data protected with the public key of %s that the keystore offers now cannot be revealed with any private key it offers (all-keys read: %s)", ctx(), k, p.lab.ks(post))
 		}
 		if complete && outcome != "new" && !eqKS(s0, s1) {
 			vs.Add("write-reported-complete-is-not:"+op+"@"+f, "%s: the operation returned no error but %s reads %s (a complete operation gives %s)", ctx(), k, p.lab.ks(post), p.lab.ks(s1))
 		}
 		return outcome
 	}
+}
+
+// halfOf tells whether each half of a pair, taken alone, is in the state it has in a or in b: the
+// private half is what the all-keys read shows, the public half the public key offered.
+func halfOf(post, a, b KS) bool {
+	priv := func(x KS) bool { return post.AllOK == x.AllOK && (!post.AllOK || eqList(post.All, x.All)) }
+	pub := func(x KS) bool { return post.PubOK == x.PubOK && (!post.PubOK || bytes.Equal(post.Pub, x.Pub)) }
+	return (priv(a) || priv(b)) && (pub(a) || pub(b))
 }
 
 func rowsOf(s Snap, k kshist.K) [4]int {
@@ -1087,7 +1137,7 @@ func maxInt(a, b int) int {
 
 // followUp runs the follow-up steps through fx (fresh handle after a crash; the handle that saw the
 // error, or a fresh one, after an error).
-func (p *pair) followUp(st *store, fx kshist.Fixture, run *wrun, outcome string, post Snap, fault string, vs *hx.Vs) {
+func (p *pair) followUp(st *store, fx kshist.Fixture, run *wrun, outcome string, post Snap, fault string, vs *hx.Vs) Snap {
 	f, op := p.format(), p.c.W.Op
 	ctx := func(step string) string {
 		return fmt.Sprintf("%s, %s, %s, follow-up %s", p.c.Fixture, describeW(p), fault, step)
@@ -1096,6 +1146,10 @@ func (p *pair) followUp(st *store, fx kshist.Fixture, run *wrun, outcome string,
 		return len(st.leftoversNow()) > 0 && strings.Contains(err, "already exists")
 	}
 	cur := post // the reference advances with every follow-up write
+	cur.Keys = map[kshist.K]KS{}
+	for k, v := range post.Keys {
+		cur.Keys[k] = v
+	}
 	known := map[string]bool{}
 	for v := range p.known {
 		known[v] = true
@@ -1124,13 +1178,16 @@ func (p *pair) followUp(st *store, fx kshist.Fixture, run *wrun, outcome string,
 			vs.Add(sig, "%s: generating %s fails: %s (files that belong to no key: %v)", ctx(step), k, e, st.leftoversNow())
 			return
 		}
-		after, oerr := observeFresh(st, p.u)
+		obs, oerr := st.open(nil, false)
 		if oerr != nil {
 			vs.Add("harness:observe", "%v", oerr)
 			return
 		}
-		*vs = append(*vs, after.Vs...)
-		a, b := cur.Keys[k], after.Keys[k]
+		var ovs hx.Vs
+		b := observeKey(st, obs, k, &ovs)
+		obs.Close()
+		*vs = append(*vs, ovs...)
+		a := cur.Keys[k]
 		lab := labeller{cur, k}
 		switch {
 		case !b.CurOK:
@@ -1149,16 +1206,9 @@ func (p *pair) followUp(st *store, fx kshist.Fixture, run *wrun, outcome string,
 				vs.Add("new-key-not-in-all:"+step+":"+op+"@"+f, "%s: the key generated for %s is not the first key of its all-keys read", ctx(step), k)
 			}
 		}
-		for _, o := range p.u {
-			if o != k && !eqKS(cur.Keys[o], after.Keys[o]) {
-				vs.Add("other-key-changed:"+step+":"+op+"@"+f, "%s: generating %s changed %s: %s before, %s after", ctx(step), k, o, labeller{cur, o}.ks(cur.Keys[o]), labeller{cur, o}.ks(after.Keys[o]))
-			}
-		}
-		cur = after
-		for _, s := range after.Keys {
-			if s.CurOK {
-				known[string(s.Cur.Secret)] = true
-			}
+		cur.Keys[k] = b // the other keys are compared at the end of the follow-up
+		if b.CurOK {
+			known[string(b.Cur.Secret)] = true
 		}
 	}
 	for _, step := range p.c.Follow {
@@ -1175,7 +1225,11 @@ func (p *pair) followUp(st *store, fx kshist.Fixture, run *wrun, outcome string,
 			}
 			retry.op(p, st, false)
 			if retry.skip != "" {
-				vs.Add("retry-not-possible:"+op+"@"+f, "%s: the operation left %s in its old state but cannot be repeated: %s", ctx(step), p.target, retry.skip)
+				sig := "retry-not-possible:" + op + "@" + f
+				if _, lerr := fx.ListRotatedKeys(); lerr != nil && len(st.leftoversNow()) > 0 && strings.Contains(lerr.Error(), "key purpose not recognized") {
+					sig = "stale-temp-file:list-rotated@" + f
+				}
+				vs.Add(sig, "%s: the operation left %s in its old state but cannot be repeated: %s (files that belong to no key: %v)", ctx(step), p.target, retry.skip, st.leftoversNow())
 				continue
 			}
 			run.added = retry.added
@@ -1194,7 +1248,7 @@ func (p *pair) followUp(st *store, fx kshist.Fixture, run *wrun, outcome string,
 				vs.Add(sig, "%s: the operation left %s in its %s state; repeating it fails: %s (files that belong to no key: %v)", ctx(step), p.target, outcome, e, st.leftoversNow())
 				continue
 			}
-			after, oerr := observeFresh(st, p.u)
+			after, oerr := observeFresh(st, p.rel)
 			if oerr != nil {
 				vs.Add("harness:observe", "%v", oerr)
 				continue
@@ -1205,10 +1259,16 @@ func (p *pair) followUp(st *store, fx kshist.Fixture, run *wrun, outcome string,
 			var rvs hx.Vs
 			q.checkAgainst(st, after, &wrun{added: run.added[before:]}, "fresh", fault+", then the same operation again without fault", &rvs, true)
 			for i := range rvs {
-				rvs[i].Sig = "retry:" + rvs[i].Sig
+				if !strings.HasPrefix(rvs[i].Sig, "stale-temp-file:") && !strings.HasPrefix(rvs[i].Sig, "pair-halves-differ:") {
+					rvs[i].Sig = "retry:" + rvs[i].Sig
+				}
 			}
 			*vs = append(*vs, rvs...)
 			cur = after
+			cur.Keys = map[kshist.K]KS{}
+			for k, v := range after.Keys {
+				cur.Keys[k] = v
+			}
 			for _, s := range after.Keys {
 				if s.CurOK {
 					known[string(s.Cur.Secret)] = true
@@ -1245,7 +1305,7 @@ func (p *pair) followUp(st *store, fx kshist.Fixture, run *wrun, outcome string,
 			}
 		case FReadAll:
 			var rvs hx.Vs
-			for _, k := range p.u {
+			for _, k := range p.rel {
 				if got, want := observeKey(st, fx, k, &rvs), cur.Keys[k]; !eqKS(got, want) && !fx.Cached() {
 					vs.Add("read-differs:"+op+"@"+f, "%s: %s reads %s through the follow-up handle, a fresh handle read %s", ctx(step), k, labeller{cur, k}.ks(got), labeller{cur, k}.ks(want))
 				}
@@ -1253,26 +1313,28 @@ func (p *pair) followUp(st *store, fx kshist.Fixture, run *wrun, outcome string,
 			*vs = append(*vs, rvs...)
 		}
 	}
+	return cur
 }
 
 // Info is what a fault case reports besides violations.
 type Info struct {
-	Skip    string
-	Fault   Fault // normalised
-	N       int
-	Half    bool
-	Pre     int
-	Outcome string
-	Pos     string // first | middle | last
-	Call    string // name of the call hit
-	Hang    bool
+	Skip      string
+	Fault     Fault // normalised
+	N         int
+	Half      bool
+	Pre       int
+	Outcome   string
+	Pos       string // first | middle | last
+	Call      string // name of the call hit
+	Hang      bool
+	Overwrite bool // import: the key ring existed
 }
 
 // runFault executes W on a copy of the prior state with the fault planted, restarts, and checks.
 func (p *pair) runFault(raw Fault) (hx.Vs, Info) {
 	var vs hx.Vs
 	f := p.normalise(raw)
-	info := Info{Fault: f, N: len(p.calls), Half: p.halfDone(f), Pre: p.preexisting(), Call: p.calls[f.K].Name}
+	info := Info{Fault: f, N: len(p.calls), Half: p.halfDone(f), Pre: p.preexisting(), Call: p.calls[f.K].Name, Overwrite: p.overwrite}
 	switch {
 	case f.K == 0:
 		info.Pos = "first"
@@ -1338,14 +1400,14 @@ func (p *pair) runFault(raw Fault) (hx.Vs, Info) {
 		if run.fx.Cached() {
 			run.fx.Reset()
 		}
-		hv := observe(work, run.fx, p.u)
-		fv, err := observeFresh(work, p.u)
+		hv := observe(work, run.fx, p.rel)
+		fv, err := observeFresh(work, p.rel)
 		if err != nil {
 			vs.Add("harness:observe", "%v", err)
 			return vs, info
 		}
 		vs = append(vs, hv.Vs...)
-		for _, k := range p.u {
+		for _, k := range p.rel {
 			if !eqKS(hv.Keys[k], fv.Keys[k]) {
 				vs.Add("handle-view-differs:"+op+"@"+format, "%s, %s, %s: through the handle that saw the error %s reads %s, a fresh handle on the same storage reads %s", p.c.Fixture, describeW(p), fdesc, k, p.lab.ks(hv.Keys[k]), p.lab.ks(fv.Keys[k]))
 			}
@@ -1358,7 +1420,7 @@ func (p *pair) runFault(raw Fault) (hx.Vs, Info) {
 	} else {
 		closeRun()
 	}
-	post, err := observeFresh(work, p.u)
+	post, err := observeFresh(work, p.rel)
 	if err != nil {
 		vs.Add("restart-fails:"+op+"@"+format, "%s, %s, %s: the keystore cannot be opened again: %s", p.c.Fixture, describeW(p), fdesc, clean(work, err))
 		return vs, info
@@ -1373,11 +1435,16 @@ func (p *pair) runFault(raw Fault) (hx.Vs, Info) {
 		defer fresh.Close()
 		follow = fresh
 	}
-	p.followUp(work, follow, run, info.Outcome, post, fdesc, &vs)
-	// at the end everything must still be listable
-	end, err := observeFresh(work, p.u)
+	expect := p.followUp(work, follow, run, info.Outcome, post, fdesc, &vs)
+	// at the end everything reads as the follow-up left it and is still listable
+	end, err := observeFresh(work, p.rel)
 	if err == nil {
 		vs = append(vs, end.Vs...)
+		for _, k := range p.rel {
+			if !eqKS(expect.Keys[k], end.Keys[k]) {
+				vs.Add("key-changed-by-follow-up:"+op+"@"+format, "%s, %s, %s, after the follow-up %v: %s reads %s, expected %s", p.c.Fixture, describeW(p), fdesc, p.c.Follow, k, labeller{expect, k}.ks(end.Keys[k]), labeller{expect, k}.ks(expect.Keys[k]))
+			}
+		}
 		stale := work.leftoversNow()
 		for _, l := range []struct{ name, err string }{{"list-keys", end.ListErr}, {"list-rotated", end.RotErr}} {
 			if l.err == "" {
@@ -1519,8 +1586,23 @@ func weighted(t *rapid.T, label string, names []string, weights []int) string {
 	return names[len(names)-1]
 }
 
+// forceW fixes the operation (and the key form) of a generated pair; the zero value leaves both to the generator.
+type forceW struct {
+	Op   string
+	Form string // "", "pair", "sym"
+}
+
+// quickPairs: the (operation, key form) enumerated by each shard of the quick tier, so that every
+// quick run enumerates every operation of every format (v1/cache=inf runs on even, v2/dir on odd shards).
+var quickPairs = map[string][]forceW{
+	"v1/cache=off": {{WGen, "sym"}, {WDestroyCurrent, "sym"}, {WDestroyRotated, "sym"}, {WGen, "pair"}, {WDestroyCurrent, "pair"}, {WDestroyRotated, "pair"}},
+	"v1/cache=inf": {{WGen, "pair"}, {}, {WDestroyCurrent, "pair"}, {}, {WDestroyRotated, "pair"}, {}},
+	"v2/mem":       {{WGen, ""}, {WDestroyCurrent, ""}, {WDestroyRotated, ""}, {WImport, ""}, {WRingGen, ""}, {WImport, ""}},
+	"v2/dir":       {{}, {WImport, ""}, {}, {WDestroyRotated, ""}, {}, {WGen, ""}},
+}
+
 // genPair constructs fixture, ids, prior history and W (everything but the fault and the follow-up).
-func genPair(t *rapid.T, fixture string) Case {
+func genPair(t *rapid.T, fixture string, force forceW) Case {
 	c := Case{Fixture: fixture}
 	for i, f := range Fixtures {
 		if f == fixture {
@@ -1545,6 +1627,12 @@ func genPair(t *rapid.T, fixture string) Case {
 		ops, weights = append(ops, WImport, WRingGen), append(weights, 14, 16)
 	}
 	c.W.Op = weighted(t, "w.op", ops, weights)
+	if force.Op != "" {
+		c.W.Op = force.Op
+	}
+	formOK := func(k kshist.K) bool {
+		return force.Form == "" || (force.Form == "pair") == kshist.IsPair(k.Kind)
+	}
 	pick := func(label string, destroyable bool) kshist.K {
 		pool := u
 		if len(touched) > 0 && rapid.IntRange(0, 9).Draw(t, label+".touched") < 7 {
@@ -1552,13 +1640,13 @@ func genPair(t *rapid.T, fixture string) Case {
 		}
 		var ok []kshist.K
 		for _, k := range pool {
-			if !destroyable || kshist.Destroyable(k.Kind) {
+			if (!destroyable || kshist.Destroyable(k.Kind)) && formOK(k) {
 				ok = append(ok, k)
 			}
 		}
 		if len(ok) == 0 {
 			for _, k := range u {
-				if kshist.Destroyable(k.Kind) {
+				if kshist.Destroyable(k.Kind) && formOK(k) {
 					ok = append(ok, k)
 				}
 			}
@@ -1566,6 +1654,18 @@ func genPair(t *rapid.T, fixture string) Case {
 		return rapid.SampledFrom(ok).Draw(t, label)
 	}
 	target := pick("w.key", c.W.Op == WDestroyCurrent || c.W.Op == WDestroyRotated)
+	if c.W.Op == WImport && rapid.IntRange(0, 9).Draw(t, "w.import.new") < 6 {
+		// import into a keystore that has no such key ring yet (the ring is created, then filled)
+		var absent []kshist.K
+		for _, k := range u {
+			if (sh[k] == nil || sh[k].total == 0) && !strings.HasPrefix(k.Kind, "poison") {
+				absent = append(absent, k)
+			}
+		}
+		if len(absent) > 0 {
+			target = rapid.SampledFrom(absent).Draw(t, "w.import.key")
+		}
+	}
 	c.W.Key, c.W.ID = target.Kind, target.ID
 	s := sh[target]
 	if s == nil {
@@ -1618,8 +1718,9 @@ func genPair(t *rapid.T, fixture string) Case {
 }
 
 func genCase(t *rapid.T, fixture string) Case {
-	c := genPair(t, fixture)
+	c := genPair(t, fixture, forceW{})
 	c.Fault.K = rapid.IntRange(0, 47).Draw(t, "fault.k")
+	c.Fault.Window = rapid.IntRange(0, 9).Draw(t, "fault.window") < 6
 	c.Fault.Kind = weighted(t, "fault.kind", Kinds, []int{30, 20, 25, 25})
 	if c.Fault.Kind == KindTorn {
 		c.Fault.Torn = rapid.SampledFrom([]int{0, 1, 25, 50, 75, 99}).Draw(t, "fault.torn")
@@ -1665,6 +1766,9 @@ func classes(c Case, info Info) []string {
 		"key:"+c.W.Key+"@"+format,
 		"keyform:"+c.W.Op+"/"+kind+"@"+format,
 	)
+	if c.W.Op == WImport {
+		cl = append(cl, map[bool]string{true: "import:overwrites-existing-ring", false: "import:creates-ring"}[info.Overwrite])
+	}
 	if info.Half {
 		cl = append(cl, "half-done:"+c.W.Op+"/"+info.Fault.Kind+"@"+c.Fixture)
 	}
@@ -1826,6 +1930,20 @@ var best = map[string]*failing{}
 
 // report hands the violations of one case to the recorder; the first new one is minimised first.
 func report(rt hx.TB, name string, c Case, vs hx.Vs) {
+	if collect {
+		statMu.Lock()
+		for _, v := range vs {
+			if collected[v.Sig] == nil {
+				collected[v.Sig] = &struct {
+					n   int
+					msg string
+				}{msg: v.Msg}
+			}
+			collected[v.Sig].n++
+		}
+		statMu.Unlock()
+		return
+	}
 	if v := firstNew(vs); v != nil {
 		if b := best[name]; b == nil || len(c.History)+len(c.Follow) < len(b.c.History)+len(b.c.Follow) {
 			mc := minimize(c, v.Sig)
@@ -1852,6 +1970,12 @@ func hung() string {
 
 const ruleText = "prior history (kshist.GenOps, 1-8 operations, extended so that W is applicable and another key exists) x one write operation W (generate/rotate any of 6 key kinds; destroy current; destroy rotated by listed index; v2: import of an exported key ring with 1-3 generations, with the default delegate when the ring does not exist and an overwriting one when it does; v2: AddKey+SetCurrent on a key ring object kept by the caller) x fault (call index k of the N storage/back-end calls W makes, measured by a fault-free run on a copy of the prior state; kind: the call returns an error instead of executing / crash just before / crash just after / torn write of 0-99 % of the data then crash) x follow-up (W again if the key is in its old state, generate the same key, generate another key, ListKeys, ListRotatedKeys, read everything) on keystore v1 (directory; cache off / unbounded) and v2 (in-memory and directory back end). Oracle on a FRESH handle opened on the surviving storage: every other key reads as before (current and all-keys, by value); the key being written is its old self or completely new (generate: new current key that is first in the all-keys read, pair halves match, nothing that was readable is gone, at most the new key added; destroy/import: exactly the state before or exactly the state a fault-free run on a copy produced); what the public key offered now protects is revealed by a stored private key; both listings succeed, show no row that belongs to no key, unchanged rows for other keys and old-or-new rows for the key written; follow-up writes succeed and keep everything readable. Fault kind error additionally on the SAME handle: no error returned => the complete new state; the handle's view equals the storage (v2 key ring object: its key list equals the stored ring). Non-trivial = at the fault at least one storage-changing call of W has been executed (wholly or torn) and at least one has not, and at least one key existed before."
 
+var (
+	quickFaults    = map[string]int{"v1/cache=off": 9, "v1/cache=inf": 6, "v2/mem": 12, "v2/dir": 4}
+	thoroughFaults = map[string]int{"v1/cache=off": 300, "v1/cache=inf": 200, "v2/mem": 500, "v2/dir": 120}
+	thoroughPairs  = map[string]int{"v1/cache=off": 45, "v1/cache=inf": 25, "v2/mem": 55, "v2/dir": 25}
+)
+
 func runCase(rt *rapid.T, name string, c Case) {
 	if h := hung(); h != "" {
 		rt.Skip("an earlier operation did not return: " + h)
@@ -1875,10 +1999,9 @@ func TestFaults(t *testing.T) {
 		t.Run(subName(fixture), func(t *testing.T) {
 			name := "TestFaults/" + fixture
 			R.Rule(name, "sampled: "+ruleText)
-			q, th := 36, 400
-			if fixture == "v2/dir" {
-				q, th = 24, 250
-			}
+			// cases per shard; quick: 6 shards x 31 = 186, thorough: 16 x 1120. The directory back end syncs
+			// every write to disk (about ten times the cost of the others) and gets fewer.
+			q, th := quickFaults[fixture], thoroughFaults[fixture]
 			hx.Checks(q, th)
 			flag.Set("rapid.shrinktime", "2s")
 			rapid.Check(t, func(rt *rapid.T) { runCase(rt, name, genCase(rt, fixture)) })
@@ -1933,18 +2056,23 @@ func TestEnumerate(t *testing.T) {
 		t.Run(subName(fixture), func(t *testing.T) {
 			name := "TestEnumerate/" + fixture
 			R.Rule(name, "exhaustive in (k, kind) per generated (history, W) pair: every call index k in [0,N) x {error with follow-up on the same handle, error with follow-up on a fresh handle, crash-before, crash-after} plus, for calls that carry data, torn writes of 0 %, 50 % and all-but-one byte; follow-up = all steps; "+ruleText)
-			// pairs per shard: quick 4 shards x (2+2+2+1) = 28 pairs; thorough 16 x 150
-			q, th := 2, 40
-			if fixture == "v2/dir" {
-				q, th = 1, 30
+			// (history, W) pairs per shard. Quick: one pair for v1/cache=off and v2/mem on every shard, one for
+			// v1/cache=inf on even and for v2/dir on odd shards (6 shards: 15 pairs, 4-70 fault cases each),
+			// the operation (and key form) of each fixed by quickPairs; thorough: 16 shards x 150 pairs.
+			var force forceW
+			if hx.Tier() == "quick" {
+				if (fixture == "v1/cache=inf" && hx.Shard()%2 == 1) || (fixture == "v2/dir" && hx.Shard()%2 == 0) {
+					t.Skip("quick tier: this fixture is enumerated on the other shards")
+				}
+				force = quickPairs[fixture][hx.Shard()%6]
 			}
-			hx.Checks(q, th)
+			hx.Checks(1, thoroughPairs[fixture])
 			flag.Set("rapid.shrinktime", "2s")
 			rapid.Check(t, func(rt *rapid.T) {
 				if h := hung(); h != "" {
 					rt.Skip("an earlier operation did not return: " + h)
 				}
-				c := genPair(rt, fixture)
+				c := genPair(rt, fixture, force)
 				c.Follow = allFollow
 				fix.Quiet()
 				p, vs := prepare(c)
